@@ -75,7 +75,11 @@ impl ChessMove {
                 Square::make_square(rank, dest_file),
                 None,
             );
-            if MoveGen::new_legal(&board).any(|l| l == m) {
+            // "O-O" / "O-O-O" denote castling only: the piece on the e-file home square must be
+            // the king (a rook or queen moving e1-g1 is not castling)
+            if board.piece_on(m.get_source()) == Some(Piece::King)
+                && MoveGen::new_legal(&board).any(|l| l == m)
+            {
                 return Ok(m);
             } else {
                 return Err(Error::InvalidSanMove);
